@@ -88,6 +88,29 @@ def kind_table(c, facts, rule='C07.R20'):
     c.floor(R, 'checked positions read from typecheck.rs', len(have), 14)      # 20 today; six repeat an equation of constrain()
 
 
+PIPELINE = ['resolve::resolve', 'inference::tag', 'inference::constrain', 'InferenceSet::unify', 'inference::substitute', 'typecheck::cycles_check', 'typecheck::type_check']
+
+
+def pipeline_whole(c, facts, rule='C07.R22'):
+    """whether a module is accepted is decided by all the phases, for every module: compile() has no successful return
+    that skips one of them. A fast path for modules "with nothing to infer" (no `let`) accepts `res num;` - a resource
+    carries kind constraints of its own - and makes the verdict depend on the presence of an unrelated declaration."""
+    R = c.rule(rule, 'PIPELINE-WHOLE: every successful return of compile() has passed resolve, tag, constrain, unify, substitute, cycles_check and type_check')
+    import pathrules as P
+    fn = facts.normalised(c.anchor(R, 'oal_compiler::compile::compile'))
+    n = 0
+    for ph in PIPELINE:
+        sites = {b for b, t in P.call_blocks(fn, ph)}
+        n += 1
+        if not sites:
+            c.bad(R, 'phase-missing:' + ph.split('::')[-1], 'compile() no longer calls %s' % ph)
+        elif P.success_return_reachable(fn, 0, sites):
+            c.bad(R, 'phase-skippable:' + ph.split('::')[-1], 'compile() can return Ok without having run %s: for some modules the kind constraints are never generated, solved or checked, and whether such a module is accepted depends on what else it happens to contain' % ph)
+        else:
+            c.ok(R, {'phase': ph, 'on every successful path': True})
+    c.floor(R, 'phases of compile()', n, 7)
+
+
 def constraint_census(c, facts):
     import kinds as K
     R = c.rule('C07.R9', 'CONSTRAINT-CENSUS: constrain() emits every equation of the language\'s kind rules, unconditionally per node')
@@ -192,6 +215,7 @@ def run(c, facts):
     c.run(lambda c: I.occurs_existential(c, facts, c.rule('C07.R8', 'OCCURS-ANY: the occurs check is existential over nested tags')))
     c.run(lambda c: constraint_census(c, facts))
     c.run(lambda c: kind_table(c, facts))
+    c.run(lambda c: pipeline_whole(c, facts))
     R21 = c.rule('C07.R21', 'NAMES-STRUCTURAL: a scope key keeps the identifier as written (marker included) and the qualifier apart, so renaming identifiers consistently cannot change which names clash or resolve (shared with C08.R10)')
     c.shared(R21, c08.r10_names_structural, 'C08.R10', facts)
     c.run(lambda c: I.pre_tag(c, facts, c.rule('C07.R5', 'PRE-TAG: declarations tagged before traversal')))
